@@ -40,13 +40,21 @@ inductive PairsWF : ZTy → ZTy → List (Option Bytes) → Prop where
       WellFormed k a → WellFormed v b → PairsWF k v r → PairsWF k v (a :: b :: r)
 end
 
-/-! types without set and enum components -/
+/-- leaf types: primitives under names and error wrappers (any body is consistent with them) -/
+def ZTy.leafy : ZTy → Bool
+  | .prim _ => true
+  | .named _ t => t.leafy
+  | .error t => t.leafy
+  | _ => false
+
+/-! the guard: no enum components, and sets only of leaf types (`Validate` checks the order of a
+    set's elements but never walks them) -/
 mutual
 def ZTy.plain : ZTy → Bool
   | .prim _ => true
   | .record fs => fs.plain
   | .array t => t.plain
-  | .set _ => false
+  | .set e => e.leafy
   | .map k v => k.plain && v.plain
   | .union ts => ts.plain
   | .enum _ => false
@@ -59,6 +67,59 @@ def ZTys.plain : ZTys → Bool
   | .nil => true
   | .cons t r => t.plain && r.plain
 end
+
+theorem leafy_wf : ∀ (t : ZTy), t.leafy = true → ∀ b, WellFormed t b
+  | .prim id, _, b => by cases b with
+    | none => exact .null _
+    | some b => exact .prim id b
+  | .named n t, h, b => by simp only [ZTy.leafy] at h; exact .named n (leafy_wf t h b)
+  | .error t, h, b => by simp only [ZTy.leafy] at h; exact .error (leafy_wf t h b)
+  | .record _, h, _ => by simp [ZTy.leafy] at h
+  | .array _, h, _ => by simp [ZTy.leafy] at h
+  | .set _, h, _ => by simp [ZTy.leafy] at h
+  | .map _ _, h, _ => by simp [ZTy.leafy] at h
+  | .union _, h, _ => by simp [ZTy.leafy] at h
+  | .enum _, h, _ => by simp [ZTy.leafy] at h
+
+/-- `checkSet` walks the same items as a full iteration -/
+theorem checkSet_iter : ∀ (n : Nat) (prev : Option Bytes) (body : Bytes), body.length ≤ n →
+    checkSetFrom prev body = .ok () → ∃ items, ziterAll body = .ok items := by
+  intro n
+  induction n with
+  | zero =>
+    intro prev body hl _
+    have : body = [] := List.eq_nil_of_length_eq_zero (by omega)
+    subst this
+    exact ⟨[], by rw [ziterAll]; rfl⟩
+  | succ n ih =>
+    intro prev body hl h
+    rw [checkSetFrom] at h
+    rw [ziterAll]
+    split at h
+    · rename_i he; simp only [he, if_true]; exact ⟨[], rfl⟩
+    · rename_i he
+      have he' : body.isEmpty = false := by simpa using he
+      simp only [he', Bool.false_eq_true, if_false]
+      split at h
+      · cases h
+      · rename_i v rest hn
+        have hp := znext_progress body v rest hn
+        simp only at h
+        have hrec : ∃ p', checkSetFrom p' rest = .ok () := by
+          split at h
+          · split at h
+            · cases h
+            · split at h
+              · cases h
+              · exact ⟨_, h⟩
+          · exact ⟨_, h⟩
+        obtain ⟨p', hp'⟩ := hrec
+        obtain ⟨items, hit⟩ := ih p' rest (by omega) hp'
+        split
+        · rename_i e he2; rw [hn] at he2; cases he2
+        · rename_i v2 r2 he2
+          rw [hn] at he2; cases he2
+          rw [hit]; exact ⟨v :: items, rfl⟩
 
 theorem walkItems_ok {f : Option Bytes → Except VErr Unit} : ∀ {l : List (Option Bytes)},
     walkItems f l = .ok () → ∀ x ∈ l, f x = .ok ()
@@ -101,7 +162,14 @@ theorem walk_sound : ∀ (t : ZTy) (b : Option Bytes), t.plain = true → walk t
     simp only [ZTy.plain] at hp; simp only [walk] at h
     exact .error (walk_sound t b hp h)
   | .enum _, _, hp, _ => by simp [ZTy.plain] at hp
-  | .set _, _, hp, _ => by simp [ZTy.plain] at hp
+  | .set e, b, hp, h => by
+    simp only [ZTy.plain] at hp
+    cases b with
+    | none => exact .null _
+    | some body =>
+      simp only [walk] at h
+      obtain ⟨items, hit⟩ := checkSet_iter body.length none body (Nat.le_refl _) h
+      exact .set hit (fun it _ => leafy_wf e hp it) h
   | .record fs, b, hp, h => by
     simp only [ZTy.plain] at hp
     cases b with
@@ -241,7 +309,10 @@ theorem walk_complete : ∀ (t : ZTy) (b : Option Bytes), t.plain = true → Wel
     | null => exact walk_null _
     | error h => simp only [walk]; exact walk_complete t b hp h
   | .enum _, _, hp, _ => by simp [ZTy.plain] at hp
-  | .set _, _, hp, _ => by simp [ZTy.plain] at hp
+  | .set e, b, hp, h => by
+    cases h with
+    | null => exact walk_null _
+    | set _ _ hcs => simp only [walk]; exact hcs
   | .record fs, b, hp, h => by
     simp only [ZTy.plain] at hp
     cases h with
